@@ -295,19 +295,22 @@ def kani_replay(scratch, harness, workdir_out):
                                             '--harness-timeout', '900s', '--exact', '--harness', harness]
     rc, out, _ = run(cmd, cwd=scratch, timeout=1800, env=env)
     tests = re.findall(r'```\n(.*?)```', out, flags=re.S)
-    # choose the playback test generated for a failing check (not the cover one)
-    chosen = None
-    for t in tests:
-        if 'Check for `cover`' in t:
-            continue
-        chosen = t
-        break
-    if chosen is None and tests:
-        # Kani de-duplicates playback tests with identical values: the failing trace may be labelled as
-        # the cover's. Running it natively decides whether it reproduces the failure.
-        chosen = tests[0]
-    if chosen is None:
+    # candidates: the playback tests generated for a failing check first; then the ones labelled as a cover - Kani de-duplicates
+    # playback tests with identical values, so the failing trace may carry a cover's label; the longest value lists first (the
+    # empty trace of an initial `cover!(true)` cannot reach a check behind symbolic input). Running a candidate natively decides.
+    cands = [x for x in tests if 'Check for `cover`' not in x]
+    cands += sorted([x for x in tests if 'Check for `cover`' in x], key=lambda x: -x.count('vec!['))
+    if not cands:
         return dict(reproduced=False, test=None, values=None, log=out[-4000:], why='no counterexample emitted')
+    last = None
+    for chosen in cands[:4]:
+        last = _native_playback(scratch, harness, chosen)
+        if last.get('reproduced'):
+            return last
+    return last
+
+
+def _native_playback(scratch, harness, chosen):
     m = re.search(r'fn (kani_concrete_playback_\w+)\(', chosen)
     tname = m.group(1)
     values = re.findall(r'//\s*(.*)\n\s*vec!\[([^\]]*)\]', chosen)
@@ -339,9 +342,14 @@ def kani_replay(scratch, harness, workdir_out):
     rc2, out2, _ = run(cmd2, cwd=scratch, timeout=1800, env=env2)
     open(target_file, 'w').write(text)
     reproduced = ('test result: FAILED' in out2 or 'panicked at' in out2) and tname in out2
+    starved = 'concrete_playback::any_raw_internal' in out2 or 'Not enough det vals' in out2
+    if reproduced and starved:
+        # the emitted values (e.g. the empty trace of the initial cover) end before the failing check: the native run stopped
+        # inside Kani's value supply, not in the code under contract - that is no reproduction
+        reproduced = False
     passed = bool(re.search(r'test result: ok\. 1 passed', out2))
     errs = '\n'.join(m.group(0) for m in re.finditer(r'^error(?:\[E\d+\])?:.*(?:\n.*){0,7}', out2, flags=re.M))
-    why = None if reproduced else ('native playback did not fail' if passed else 'native playback could not be built or run')
+    why = None if reproduced else ('native playback did not fail' if passed else 'the emitted playback values end before the failing check' if starved else 'native playback could not be built or run')
     return dict(reproduced=reproduced, test=chosen, values=values, log=(errs[:3000] + '\n...\n' + out2[-3000:]), test_name=tname,
                 why=why)
 
